@@ -251,4 +251,30 @@ def isReturned (s : State) : Bool :=
   | .returned _ => true
   | _ => false
 
+/-! ### Observation used by C05 at machine level -/
+
+/-- the datagram (if any) that event `e` makes `conn.Read` deliver to the receive loop in state `s`:
+    a `datagram` event counts when the call is in the receive loop and its conn is open (every other
+    `datagram` event is a no-op of `step`: nothing is read before the dial, on a closed conn, or after
+    the return) -/
+def deliveredBy (s : State) (e : Event) : List Bytes :=
+  match e with
+  | .datagram d => if s.phase = .waiting ∧ s.connClosed = false then [d] else []
+  | _ => []
+
+/-- the datagrams read by the receive loop, in order, during the run `evs` from `s` -/
+def deliveredFrom (H : Hash) (P : Params) (s : State) : List Event → List Bytes
+  | [] => []
+  | e :: es => deliveredBy s e ++ deliveredFrom H P (step H P s e) es
+
+/-- … during a whole call -/
+def delivered (H : Hash) (P : Params) (evs : List Event) : List Bytes :=
+  deliveredFrom H P (init P) evs
+
+/-- the phase a call is in when its receive loop has produced outcome `o` -/
+def phaseOf : Outcome → Phase
+  | .returned _ p => .returned (.reply p)
+  | .failed _ e => .returned (.pktErr e)
+  | .waiting => .waiting
+
 end RV.Exchange
